@@ -130,6 +130,9 @@ type helperArg struct {
 
 var curLimit = 1024
 
+type namedStr string
+type namedBytes []byte
+
 func setupHelpers(a helperArg) {
 	curLimit = libdefaults.SemMaxInputLength // default configuration: whatever the library starts with
 	if a.Limit != nil {
@@ -176,6 +179,12 @@ func probeHelpers(p helperArg) (string, string) {
 		{"Compare/Latest(bytes)", 0, func() (int, error) { return sem.Compare([]byte(a), []byte(b)) }, func() (sem.Ver, error) { return sem.Latest([]byte(a), b) }, sem.Parse[string]},
 		{"CompareVersion/LatestVersion", 1, func() (int, error) { return sem.CompareVersion[string, string](a, b) }, func() (sem.Ver, error) { return sem.LatestVersion(a, b) }, sem.ParseVersion[string]},
 		{"CompareTag/LatestTag", 2, func() (int, error) { return sem.CompareTag(a, b) }, func() (sem.Ver, error) { return sem.LatestTag(a, []byte(b)) }, sem.ParseTag[string]},
+		// every remaining instantiation of the operand types: both []byte, []byte then string, named types
+		{"Compare/Latest(bytes,bytes)", 0, func() (int, error) { return sem.Compare([]byte(a), []byte(b)) }, func() (sem.Ver, error) { return sem.Latest([]byte(a), []byte(b)) }, sem.Parse[string]},
+		{"CompareTag/LatestTag(bytes,bytes)", 2, func() (int, error) { return sem.CompareTag([]byte(a), []byte(b)) }, func() (sem.Ver, error) { return sem.LatestTag([]byte(a), []byte(b)) }, sem.ParseTag[string]},
+		{"LatestVersion(bytes,bytes)", 1, func() (int, error) { return sem.CompareVersion[string, string](a, b) }, func() (sem.Ver, error) { return sem.LatestVersion([]byte(a), []byte(b)) }, sem.ParseVersion[string]},
+		{"Compare/Latest(named,named)", 0, func() (int, error) { return sem.Compare(namedStr(a), namedBytes(b)) }, func() (sem.Ver, error) { return sem.Latest(namedBytes(a), namedStr(b)) }, sem.Parse[string]},
+		{"LatestVersion/LatestTag(string,bytes)", 1, func() (int, error) { return sem.CompareVersion[string, string](a, b) }, func() (sem.Ver, error) { return sem.LatestVersion(a, []byte(b)) }, sem.ParseVersion[string]},
 	}
 	for _, x := range hs {
 		wantErr := !validFor(a, x.policy) || !validFor(b, x.policy)
